@@ -386,8 +386,7 @@ Section Rename.
         destruct (has_name name (fmem (last_frame cur outer))); [reflexivity|].
         rewrite <- rn_def_proto. rewrite push_member_rn by (intros H; discriminate).
         destruct (push_member cur name (DProto cf cn cm)) as [f'|]; cbn [rn_res bind]; [|reflexivity].
-        unfold rn_frame at 1. cbn [fk]. destruct (fk cur); cbn [rn_fkind rn_res]; try reflexivity.
-        rewrite rn_def_proto. cbn [def_loc lfile]. now rewrite lam0.
+        unfold rn_frame at 1. cbn [fk]. destruct (fk cur); cbn [rn_fkind rn_res]; reflexivity.
       - (* option *)
         cbn [rn_item proc_item]. cbn [opt_fixed] in Hof.
         change (rn_frame cur :: map rn_frame outer) with (map rn_frame (cur :: outer)).
